@@ -3,6 +3,8 @@ package props
 import (
 	"bytes"
 	"fmt"
+	"github.com/insomniacslk/dhcp/dhcpv4"
+	"github.com/insomniacslk/dhcp/dhcpv6"
 	"os"
 	"reflect"
 	"strings"
@@ -249,6 +251,16 @@ var c19edit = newChk("C19", "parsed-set-edits",
 		}
 		if out := l.ToBytes(); !bytes.Equal(out, c.Wire) {
 			return obs.Failf("C19/parsed-reencode", fmt.Sprintf("original bytes %x", clipb(c.Wire)), "%x", clipb(out))
+		}
+		// the typed options built from the parsed set carry the parsed bytes too (the set is unchanged)
+		if o6 := dhcpv6.OptDomainSearchList(l).ToBytes(); !bytes.Equal(o6, c.Wire) {
+			return obs.Failf("C19/parsed-reencode/dhcpv6-search-list", fmt.Sprintf("original bytes %x", clipb(c.Wire)), "%x", clipb(o6))
+		}
+		if o4 := dhcpv4.OptDomainSearch(l).Value.ToBytes(); !bytes.Equal(o4, c.Wire) {
+			return obs.Failf("C19/parsed-reencode/dhcpv4-search-list", fmt.Sprintf("original bytes %x", clipb(c.Wire)), "%x", clipb(o4))
+		}
+		if o39 := (&dhcpv6.OptFQDN{Flags: 1, DomainName: l}).ToBytes(); len(o39) < 1 || !bytes.Equal(o39[1:], c.Wire) {
+			return obs.Failf("C19/parsed-reencode/dhcpv6-fqdn", fmt.Sprintf("original bytes %x", clipb(c.Wire)), "%x", clipb(o39))
 		}
 		orig := append([]string{}, l.Labels...)
 		n := len(orig)
